@@ -1,6 +1,6 @@
 # Per-property claims; exec'd by gen_manifest.py (claim(id, technique, text, note, design_ref)).
 PENDING = "check not built yet in this framework (DESIGN.md §8 build order); no verdict is claimed until its rule set runs clean both ways"
-for _p in ["C01","C02","C03","C04","C06","C07","C08","C11","C14","C16","C18","C19","C20"]:
+for _p in ["C01","C02","C03","C04","C06","C08","C11","C14","C16","C18","C19","C20"]:
     NOT_APPLICABLE[_p] = PENDING
 
 claim("C10",
@@ -44,3 +44,9 @@ claim("C05",
   "Decides for every input at once the soundness skeleton of verification: if the cryptographic primitive fails no path reports success; success paths always executed it; the transient (offline) key is used only on paths where (*OfflineSignature).VerifySignature succeeded against the structure's own identity key; the verifying key has no origin other than the receiver's own identity/blinded key/offline block; the verified message is built from every field of the receiver with exactly the specified DatabaseStore prefix byte (3/7/5, none for LeaseSet/RouterInfo); the signature operand is the receiver's own. A forged offline block, a swapped key source, a dropped prefix or an ignored primitive result are therefore caught without constructing such inputs. Cryptographic validity is trusted to the primitives; equality of re-serialised and received bytes is C01's clause.",
   "Trusted: go-i2p/crypto verifiers and crypto/ed25519; go/ssa. Verifiers are discovered (exported Verify* methods reaching a primitive). The store-type prefix table (LeaseSet2=3, MetaLeaseSet=7, EncryptedLeaseSet=5) is the checker's frozen copy of the specification.",
   "DESIGN.md §5 C05")
+
+claim("C07",
+  "interprocedural backward provenance slicing of the hashed / encoded / compared bytes + SSA shape check of the address construction + never-reassigned check of the digest function variable",
+  "Shows that every identity hash, base32/base64 address and equality in the library is computed from exactly (*KeysAndCert).Bytes() of the identity's own KeysAndCert — unsliced, nothing mixed in — through crypto/sha256.Sum256 (types.SHA256 is initialised to it and never stored to), TrimRight(base32(full digest),\"=\")+\".b32.i2p\" (60 characters) and the I2P base64; equality is byte equality of the two serialisations; and KeysAndCert.Bytes draws on every field (keys, padding, certificate). So padding and certificate bytes always take part, for every identity — a statement the example-based tests cannot make. That changing any byte changes the hash is a property of SHA-256 (not decided).",
+  "Trusted: crypto/sha256, base encodings (C13), bytes.Equal/ConstantTimeCompare. Exported accessor names are anchors. Placement of bytes inside KeysAndCert.Bytes is C01/C10's clause.",
+  "DESIGN.md §5 C07")
